@@ -502,48 +502,91 @@ ecdsa.SignASN1`: reads its inputs; result in a new array, or an error -/
 def asymPrim (env : Env) (outLen : Nat) : M Slice :=
   if env.primOk then freshResult env outLen else fail eOther
 
+/-- `encryptPublicKeyRSAPKCS1v15(plaintext, key)`: `key.Raw(&rsa.PublicKey{})`, `rsa.EncryptPKCS1v15` -/
+def encryptPublicKeyRSAPKCS1v15 (env : Env) (outLen : Nat) (_plaintext : Slice) (key : Key) : M Slice := do
+  failIf (!key.kind.isRSA) eKeyTypeMismatch
+  asymPrim env outLen
+
+/-- `encryptPublicKeyRSAOAEP(plaintext, key, hash, label)` -/
+def encryptPublicKeyRSAOAEP (env : Env) (outLen : Nat) (_plaintext : Slice) (key : Key) (_label : Slice) :
+    M Slice := do
+  failIf (!key.kind.isRSA) eKeyTypeMismatch
+  asymPrim env outLen
+
 /-- `crypto.EncryptPublicKey(plaintext, algorithm, key, associatedData)` -/
-def encryptPublicKey (env : Env) (outLen : Nat) (_plaintext : Slice) (alg : String) (key : Key)
-    (_ad : Slice) : M Slice := do
+def encryptPublicKey (env : Env) (outLen : Nat) (plaintext : Slice) (alg : String) (key : Key)
+    (ad : Slice) : M Slice :=
   -- key.PublicKey() succeeds for every kind of jwk.Key (a symmetric key is returned as is)
-  if algsRSAEnc.contains alg then do
-    failIf (!key.kind.isRSA) eKeyTypeMismatch        -- key.Raw(&rsa.PublicKey{})
-    asymPrim env outLen
+  if alg = "RSA1_5" then encryptPublicKeyRSAPKCS1v15 env outLen plaintext key
+  else if alg = "RSA-OAEP" then encryptPublicKeyRSAOAEP env outLen plaintext key ad
+  else if algsRSAOAEPSHA2.contains alg then encryptPublicKeyRSAOAEP env outLen plaintext key ad
   else fail eUnsupportedAlgorithm
+
+/-- `decryptPrivateKeyRSAPKCS1v15(ciphertext, key)`: `key.Raw(&rsa.PrivateKey{})`, `rsa.DecryptPKCS1v15` -/
+def decryptPrivateKeyRSAPKCS1v15 (env : Env) (outLen : Nat) (_ciphertext : Slice) (key : Key) : M Slice := do
+  failIf (key.kind != .rsaPriv) eKeyTypeMismatch
+  asymPrim env outLen
+
+/-- `decryptPrivateKeyRSAOAEP(ciphertext, key, hash, label)` -/
+def decryptPrivateKeyRSAOAEP (env : Env) (outLen : Nat) (_ciphertext : Slice) (key : Key) (_label : Slice) :
+    M Slice := do
+  failIf (key.kind != .rsaPriv) eKeyTypeMismatch
+  asymPrim env outLen
 
 /-- `crypto.DecryptPrivateKey(ciphertext, algorithm, key, associatedData)` -/
-def decryptPrivateKey (env : Env) (outLen : Nat) (_ciphertext : Slice) (alg : String) (key : Key)
-    (_ad : Slice) : M Slice := do
-  if algsRSAEnc.contains alg then do
-    failIf (key.kind != .rsaPriv) eKeyTypeMismatch   -- key.Raw(&rsa.PrivateKey{})
-    asymPrim env outLen
+def decryptPrivateKey (env : Env) (outLen : Nat) (ciphertext : Slice) (alg : String) (key : Key)
+    (ad : Slice) : M Slice :=
+  if alg = "RSA1_5" then decryptPrivateKeyRSAPKCS1v15 env outLen ciphertext key
+  else if alg = "RSA-OAEP" then decryptPrivateKeyRSAOAEP env outLen ciphertext key ad
+  else if algsRSAOAEPSHA2.contains alg then decryptPrivateKeyRSAOAEP env outLen ciphertext key ad
   else fail eUnsupportedAlgorithm
+
+def signPrivateKeyRSAPKCS1v15 (env : Env) (outLen : Nat) (_digest : Slice) (key : Key) : M Slice := do
+  failIf (key.kind != .rsaPriv) eKeyTypeMismatch
+  asymPrim env outLen
+
+def signPrivateKeyRSAPSS (env : Env) (outLen : Nat) (_digest : Slice) (key : Key) : M Slice := do
+  failIf (key.kind != .rsaPriv) eKeyTypeMismatch
+  asymPrim env outLen
+
+def signPrivateKeyECDSA (env : Env) (outLen : Nat) (_digest : Slice) (key : Key) : M Slice := do
+  failIf (key.kind != .ecPriv) eKeyTypeMismatch
+  asymPrim env outLen
+
+def signPrivateKeyEdDSA (env : Env) (outLen : Nat) (_message : Slice) (key : Key) : M Slice := do
+  failIf (key.kind != .edPriv) eKeyTypeMismatch
+  freshResult env outLen                            -- ed25519.Sign never fails
 
 /-- `crypto.SignPrivateKey(digest, algorithm, key)` -/
-def signPrivateKey (env : Env) (outLen : Nat) (_digest : Slice) (alg : String) (key : Key) :
-    M Slice := do
-  if algsRS.contains alg || algsPS.contains alg then do
-    failIf (key.kind != .rsaPriv) eKeyTypeMismatch
-    asymPrim env outLen
-  else if algsES.contains alg then do
-    failIf (key.kind != .ecPriv) eKeyTypeMismatch
-    asymPrim env outLen
-  else if alg = "EdDSA" then do
-    failIf (key.kind != .edPriv) eKeyTypeMismatch
-    freshResult env outLen                            -- ed25519.Sign never fails
+def signPrivateKey (env : Env) (outLen : Nat) (digest : Slice) (alg : String) (key : Key) : M Slice :=
+  if algsRS.contains alg then signPrivateKeyRSAPKCS1v15 env outLen digest key
+  else if algsPS.contains alg then signPrivateKeyRSAPSS env outLen digest key
+  else if algsES.contains alg then signPrivateKeyECDSA env outLen digest key
+  else if alg = "EdDSA" then signPrivateKeyEdDSA env outLen digest key
   else fail eUnsupportedAlgorithm
 
+def verifyPublicKeyRSAPKCS1v15 (env : Env) (_digest _signature : Slice) (key : Key) : M Bool := do
+  failIf (!key.kind.isRSA) eKeyTypeMismatch
+  pure env.sigOk
+
+def verifyPublicKeyRSAPSS (env : Env) (_digest _signature : Slice) (key : Key) : M Bool := do
+  failIf (!key.kind.isRSA) eKeyTypeMismatch
+  pure env.sigOk
+
+def verifyPublicKeyECDSA (env : Env) (_digest _signature : Slice) (key : Key) : M Bool := do
+  failIf (!(key.kind == .ecPriv || key.kind == .ecPub)) eKeyTypeMismatch
+  pure env.sigOk
+
+def verifyPublicKeyEdDSA (env : Env) (_mesage _signature : Slice) (key : Key) : M Bool := do
+  failIf (!(key.kind == .edPriv || key.kind == .edPub)) eKeyTypeMismatch
+  pure env.sigOk
+
 /-- `crypto.VerifyPublicKey(digest, signature, algorithm, key)` -/
-def verifyPublicKey (env : Env) (_digest _signature : Slice) (alg : String) (key : Key) : M Bool := do
-  if algsRS.contains alg || algsPS.contains alg then do
-    failIf (!key.kind.isRSA) eKeyTypeMismatch
-    pure env.sigOk
-  else if algsES.contains alg then do
-    failIf (!(key.kind == .ecPriv || key.kind == .ecPub)) eKeyTypeMismatch
-    pure env.sigOk
-  else if alg = "EdDSA" then do
-    failIf (!(key.kind == .edPriv || key.kind == .edPub)) eKeyTypeMismatch
-    pure env.sigOk
+def verifyPublicKey (env : Env) (digest signature : Slice) (alg : String) (key : Key) : M Bool :=
+  if algsRS.contains alg then verifyPublicKeyRSAPKCS1v15 env digest signature key
+  else if algsPS.contains alg then verifyPublicKeyRSAPSS env digest signature key
+  else if algsES.contains alg then verifyPublicKeyECDSA env digest signature key
+  else if alg = "EdDSA" then verifyPublicKeyEdDSA env digest signature key
   else fail eUnsupportedAlgorithm
 
 /-! ## crypto (crypto.go) -/
@@ -572,13 +615,17 @@ def decrypt (v : Version) (env : Env) (outLen : Nat) (ciphertext : Slice) (alg :
 
 /-- `crypto.ParseKey(raw, contentType)`: jwx parsers read `raw`; the symmetric-key fallback
 base64-decodes into a new buffer (and `jwk.FromRaw(raw)` keeps `raw` itself) -/
-def parseKey (env : Env) (raw : Slice) (_contentType : String) : M Unit := do
-  failIf (raw.len == 0) eOther
-  -- parseSymmetricKey: trimmedRaw := bytes.TrimRight(raw, "\n=") is a sub-slice (no write)
+def parseSymmetricKey (env : Env) (raw : Slice) : M Unit := do
+  -- trimmedRaw := bytes.TrimRight(raw, "\n=") is a sub-slice (no write)
   let dst ← make (raw.len * 6 / 8)
   writeAt dst 0 (env.bytes dst.len)              -- base64.RawStdEncoding.Decode(dst, trimmedRaw)
   writeAt dst 0 (env.bytes dst.len)              -- base64.RawURLEncoding.Decode(dst, trimmedRaw)
-  if env.primOk then pure () else fail eOther
+  if env.primOk then pure () else fail eOther    -- jwk.FromRaw(dst[:n]) / jwk.FromRaw(raw)
+
+def parseKey (env : Env) (raw : Slice) (_contentType : String) : M Unit := do
+  failIf (raw.len == 0) eOther
+  -- jwk.ParseKey(raw[, WithPEM]) for JSON / PEM input only reads; otherwise:
+  parseSymmetricKey env raw
 
 /-! ## one entry point for every exported function (what `kitdrv C17` runs) -/
 
